@@ -18,7 +18,7 @@ from autobean_refactor.models import meta_value_internal as _mvi
 
 ID = 'C09'
 PROPERTY_FILE = 'Autobean/Properties/C09.lean'
-LEAN_TARGETS = ['Autobean.Properties.C09']
+LEAN_TARGETS = ['Autobean.Properties.C09', 'Autobean.Obligations.CachesValues']
 TECHNIQUE = 'Lean 4 refinement proof (setter branches vs record-of-optionals, histories by induction) + history-mode correspondence'
 RULE = ('A: assignment histories on real CostSpec objects parsed from every documented start form (8 main shapes x {} / {{}} x '
         'subsets of date/label/* in varied order, free-standing and inside a posting of a File); exhaustive sequences of '
